@@ -55,16 +55,16 @@ func (f *Formatter) formatConditionLines(expr ast.Expression) ([]string, bool, b
 				lines = append(lines, extraIndent+line)
 			}
 			lines = append(lines, ")")
-			return lines, true, true
+			return f.withConditionComments(t.Meta, lines), true, true
 		}
 		inner := strings.TrimSpace(f.formatExpression(t.Right).String())
-		return []string{"(" + inner + ")"}, false, false
+		return f.withConditionComments(t.Meta, []string{"(" + inner + ")"}), false, false
 	case *ast.PrefixExpression:
 		// Handle negation and other prefix operators containing compound conditions.
 		rightLines, rightMultiline, rightPreserve := f.formatConditionLines(t.Right)
 		if rightMultiline {
 			rightLines[0] = t.Operator + rightLines[0]
-			return rightLines, true, rightPreserve
+			return f.withConditionComments(t.Meta, rightLines), true, rightPreserve
 		}
 	case *ast.InfixExpression:
 		// Only split compound boolean operators; other infix expressions stay inline.
@@ -111,6 +111,23 @@ func (f *Formatter) formatConditionLines(expr ast.Expression) ([]string, bool, b
 
 	line := strings.TrimSpace(f.formatExpression(expr).String())
 	return []string{line}, false, false
+}
+
+// withConditionComments puts the comments of the expression, which is printed over the lines
+// instead of formatExpression(), before the first line and after the last line.
+func (f *Formatter) withConditionComments(meta *ast.Meta, lines []string) []string {
+	leading := f.formatComment(meta.Leading, " ", 0)
+	trailing := f.formatComment(meta.Trailing, " ", 0)
+	if len(lines) == 0 {
+		lines = []string{""}
+	}
+	if leading != "" {
+		lines[0] = leading + lines[0]
+	}
+	if trailing != "" {
+		lines[len(lines)-1] += " " + strings.TrimRight(trailing, " ")
+	}
+	return lines
 }
 
 // formatConditionExpression returns a chunked condition string and flags indicating multiline/preserve.
